@@ -48,3 +48,79 @@ func VH_C16_Flush() {
 	vAssert(n == 0 && err == nil && w.calls == calls, "final Flush is not a no-op")
 	vAssert(ini.WriteMessage(p) == nil, "cannot start a new record after a complete flush")
 }
+
+// VH_C16_HandshakeShortReads: the underlying stream fragments the handshake
+// bytes: after a symbolic number of reads, up to `frags` consecutive Reads in
+// each direction return only a symbolic part of what was asked for. A valid
+// handshake must complete exactly as it does without fragmentation.
+func VH_C16_HandshakeShortReads() {
+	cfg := &vHSConfig{kk: vBool("kk")}
+	if cfg.kk {
+		cfg.cMin, cfg.cMax, cfg.sMin, cfg.sMax = 2, 2, 2, 2
+	} else {
+		v := byte(vIntRange("version", 0, 2))
+		cfg.cMin, cfg.cMax, cfg.sMin, cfg.sMax = 0, 2, 0, v
+		cfg.cliPW, cfg.srvPW = vSamePW()
+	}
+	auth := vBytes("auth", 7)
+	cfg.auth = auth
+	hs, ok := vSetup(cfg)
+	vAssert(ok, "machine construction failed")
+	frags := vParam("frags", 2)
+	switch vIntRange("mode", 0, 3) {
+	case 0: // a burst of fragmented reads client -> server
+		hs.c2s.fragSkip, hs.c2s.fragBudget = vIntRange("skip_c2s", 0, 6), frags
+	case 1: // server -> client
+		hs.s2c.fragSkip, hs.s2c.fragBudget = vIntRange("skip_s2c", 0, 6), frags
+	case 2: // every read delivers one byte
+		hs.c2s.fragAll, hs.s2c.fragAll = 1, 1
+	case 3: // every read delivers at most seven bytes
+		hs.c2s.fragAll, hs.s2c.fragAll = 7, 7
+	}
+	vRunHandshake(hs)
+	vReach("short-reads")
+	vAssert(hs.cli.err == nil && hs.srv.err == nil, "a valid handshake failed because the stream delivered it in fragments")
+	if hs.cli.err == nil && hs.srv.err == nil {
+		vAgree(hs, auth)
+	}
+}
+
+// VH_C16_RecordShortReads: a record delivered in fragments decrypts like an
+// unfragmented one.
+func VH_C16_RecordShortReads() {
+	ini, rsp := vMachines()
+	rec, wire := vOneRecord(ini, 0)
+	pc := &vFragConn{vPipeConn: vPipeConn{buf: wire}, skip: vIntRange("skip", 0, 2), budget: vParam("frags", 2)}
+	m, err := rsp.ReadMessage(pc)
+	vReach("record-short-reads")
+	vAssert(err == nil && len(m) == len(rec), "a valid record failed because the stream delivered it in fragments")
+	j := vInt("j")
+	if err == nil && j >= 0 && j < len(m) && j < len(rec) {
+		vAssert(m[j] == rec[j], "fragmented record decrypts to different bytes")
+	}
+}
+
+type vFragConn struct {
+	vPipeConn
+	skip, budget int
+}
+
+func (c *vFragConn) Read(p []byte) (int, error) {
+	if c.off >= len(c.buf) {
+		return 0, vErrTimeout
+	}
+	q := p
+	if len(p) > 1 && len(c.buf)-c.off > 1 {
+		if c.skip > 0 {
+			c.skip--
+		} else if c.budget > 0 {
+			c.budget--
+			k := vInt("frag")
+			vAssume(k >= 1 && k < len(p) && k < len(c.buf)-c.off)
+			q = p[:k]
+		}
+	}
+	n := copy(q, c.buf[c.off:])
+	c.off += n
+	return n, nil
+}
